@@ -758,3 +758,140 @@ def Bip85(inp, tab, ev):
     with PrfTap(prf):
         ok, v = call(f)
     ev["res"] = res_of(ok, v, T)
+
+
+# ------------------------------------------------ C14 watch-only, C16 network
+KIND_SEQ = ["p2pkh", "p2wpkh", "p2sh_p2wpkh", "p2wsh", "p2sh_p2wsh"]
+
+
+@act
+def Watch(inp, tab, ev):
+    from btc_hd_wallet import PaperWallet
+    from . import refwallet as W
+    export = [int.from_bytes(bytes(i), "big") for i in inp["export"]]
+    sub = [int.from_bytes(bytes(i), "big") for i in inp["sub"]]
+    ver = int.from_bytes(bytes(inp["version"]), "big")
+    vnet = {v: k[1] for k, v in W.VERSIONS.items()}.get(ver)
+    rroot = ref_node(tab, inp["root"])
+    rx = W.derive(tab, rroot, export)
+    if rx is not None and vnet is not None:
+        W.derive(tab, rx, sub)                               # the full wallet's side
+        rw = W.neuter(rx)
+        rw.net = vnet
+        rn = W.derive(tab, rw, sub)                          # the watch-only side
+        if rn is not None:
+            for k in KIND_SEQ:
+                W.ref_addr(tab, k, rn.K, vnet)
+
+    def go():
+        x = py_node(inp["root"]).derive_path(export)
+        s = x.extended_public_key(version=ver)
+        wl = PaperWallet.from_extended_key(s)
+        n = wl.master.derive_path(sub)
+        out = {"net": "test" if wl.testnet else "main", "watch_only": bool(wl.watch_only), "has_bip85": wl.bip85 is not None,
+               "node": node_json(n), "addrs": [T(getattr(wl, k + "_address")(n)) for k in KIND_SEQ]}
+        priv = []
+
+        def probe(what, f, leak_if=lambda v: v is not None):
+            try:
+                v = f()
+                priv.append({"what": what, "leak": bool(leak_if(v))})
+            except Exception:
+                priv.append({"what": what, "leak": False})
+        probe("node_extended_private_key", lambda: wl.node_extended_private_key(n))
+        probe("node_extended_keys-prv", lambda: wl.node_extended_keys(n)["prv"])
+        probe("group-wif", lambda: wl.group([n], wl.p2wpkh_address)[0][3])
+        probe("private_key", lambda: n.private_key)
+        probe("extended_private_key", lambda: n.extended_private_key())
+        probe("hardened-ckd", lambda: n.ckd(2 ** 31))
+        probe("hardened-ckd-max", lambda: n.ckd(2 ** 32 - 1))
+        probe("bip85_data", lambda: wl.bip85_data())
+        probe("generate", lambda: wl.generate(0, (0, 1)))
+        probe("master-private_key", lambda: wl.master.private_key)
+        out["priv"] = priv
+        return out
+    ok, v = call(go)
+    if ok:
+        for a in v["addrs"]:
+            emitted_address_oracle(tab, untext(a))
+    ev["res"] = res_of(ok, v)
+
+
+def wallet_leaves(data):
+    """(role, string) leaves of a PaperWallet.generate() dict; the BIP85 block is exempt"""
+    out, exempt = [], 0
+    for k, v in data.items():
+        if k == "MASTER":
+            for x in v.values():
+                if isinstance(x, str):
+                    out.append(("other", x))
+        elif k == "BIP85":
+            exempt += len(v)
+        else:
+            aek = v["account_extended_keys"]
+            out.append(("path", aek["path"]))
+            out.append(("pub", aek["pub"]))
+            if aek.get("prv") is not None:
+                out.append(("prv", aek["prv"]))
+            for row in v["groups"]:
+                out.append(("path", row[0]))
+                out.append(("addr", row[1]))
+                out.append(("other", row[2]))
+                if len(row) > 3 and row[3] is not None:
+                    out.append(("wif", row[3]))
+    return out, exempt
+
+
+@act
+def Emit(inp, tab, ev):
+    """every network-tagged string a wallet emits through one API family"""
+    import json as _json
+    from btc_hd_wallet import PaperWallet
+    test = inp["net"] == "test"
+    what = inp["what"]
+    leaves = []
+
+    def go():
+        if inp.get("import"):
+            w = PaperWallet.from_extended_key(untext(inp["import"]))
+        else:
+            w = PaperWallet.from_bip39_seed_hex(inp["seed"], testnet=test)
+        if what == "generate":
+            lv, ex = wallet_leaves(w.generate(account=inp["account"], interval=tuple(inp["interval"])))
+            leaves.extend(lv)
+            ev["exempt_leaves"] = ex
+        elif what == "nodes":
+            for p in inp["paths"]:
+                path = [int.from_bytes(bytes(i), "big") for i in p]
+                n = w.master.derive_path(path)
+                d = w.node_extended_keys(n)
+                leaves.append(("other", d["path"]))        # a path the caller asked for, not a generated one
+                leaves.append(("pub", d["pub"]))
+                if d["prv"] is not None:
+                    leaves.append(("prv", d["prv"]))
+                leaves.append(("pub", n.extended_public_key()))
+                if not w.watch_only:
+                    leaves.append(("prv", n.extended_private_key()))
+                    leaves.append(("wif", n.private_key.wif(testnet=w.testnet)))
+                    leaves.append(("wif", n.private_key.wif(compressed=False, testnet=w.testnet)))
+                for k in KIND_SEQ:
+                    leaves.append(("addr", getattr(w, k + "_address")(n)))
+                for row in w.group([n], w.p2pkh_address):
+                    leaves.append(("addr", row[1]))
+                    if row[3] is not None:
+                        leaves.append(("wif", row[3]))
+        elif what == "wasabi":
+            d = _json.loads(w.wasabi_json())
+            leaves.append(("pub", d["ExtPubKey"]))
+        elif what == "generator":
+            n = w.master.derive_path([int.from_bytes(bytes(i), "big") for i in inp["paths"][0]])
+            for k in KIND_SEQ:
+                g = w.address_generator(n, getattr(w, k + "_address"))
+                leaves.append(("addr", next(g)[1]))
+                leaves.append(("addr", g.send(5)[1]))
+        return {"net": "test" if w.testnet else "main", "n": len(leaves)}
+    ok, v = call(go)
+    for role, s in leaves:
+        emitted_address_oracle(tab, s)
+    ev["leaves"] = [{"role": r, "s": T(s)} for r, s in leaves]
+    ev["res"] = res_of(ok, v)
